@@ -103,14 +103,15 @@ GEN_NAME = {"_partition": "gen_partition", "_randomizedPartition": "gen_randomiz
             "selSPEA2.fill": "gen_selSPEA2_fill", "selSPEA2.trunc": "gen_selSPEA2_trunc",
             "gen_refs_recursive": "gen_refs_recursive", "uniform_reference_points": "gen_uniform_reference_points"}
 COQ_TYPE = {"optT": "option T", "Z": "Z", "T": "T", "listT": "list T", "llT": "list (list T)", "bool": "bool", "nat": "nat",
-            "listnat": "list nat", "llnat": "list (list nat)", "inds": "list (list T * list T)", "ind": "(list T * list T)"}
-DEFAULT = {"nat": "0%nat", "listnat": "(@nil nat)", "ind": "(@nil T, @nil T)", "listT": "(@nil T)", "T": "(n_ofZ Op 0%Z)"}
-ELT = {"listnat": "nat", "llnat": "listnat", "inds": "ind", "llT": "listT", "listT": "T"}
+            "listnat": "list nat", "llnat": "list (list nat)", "inds": "list (list T * list T)", "ind": "(list T * list T)",
+            "pn": "pynum T", "listpn": "list (pynum T)", "pnnat": "(pynum T * nat)", "lpnnat": "list (pynum T * nat)"}
+DEFAULT = {"pn": "(@PI T 0%nat)", "pnnat": "(@PI T 0%nat, 0%nat)", "nat": "0%nat", "listnat": "(@nil nat)", "ind": "(@nil T, @nil T)", "listT": "(@nil T)", "T": "(n_ofZ Op 0%Z)"}
+ELT = {"listpn": "pn", "lpnnat": "pnnat", "listnat": "nat", "llnat": "listnat", "inds": "ind", "llT": "listT", "listT": "T"}
 EXPECTED_IMPORTS = {"random": "import"}
 
 
 def v(name):
-    return "v_" + name
+    return "ds" if name == "$ds" else "v_" + name
 
 
 def zlit(n):
@@ -697,6 +698,14 @@ def letpat(names):
     return ("'" if len(names) > 1 else "") + tup(names)
 
 
+class Widen(Exception):
+    """x[i] += <number> on a list of natural numbers: the list must hold Python numbers (pynum) from the
+    outermost enclosing loop on"""
+    def __init__(self, name, node):
+        Exception.__init__(self, name)
+        self.name, self.node = name, node
+
+
 class SpeaTr(object):
     """selSPEA2: nat-typed translation (see the comment at SPEA)."""
 
@@ -705,6 +714,7 @@ class SpeaTr(object):
         self.forced = forced or {}
         self.unit_status = {}
         self.unit_defs = []
+        self.for_depth = 0
 
     # ---- expressions ---------------------------------------------------------------------------------
     def coerceZ(self, x, t, node):
@@ -725,6 +735,8 @@ class SpeaTr(object):
 
     def expr(self, e, env, want=None):
         if isinstance(e, ast.Constant):
+            if isinstance(e.value, float) and e.value == int(e.value) and abs(e.value) < 2 ** 53:
+                return "(n_ofZ Op %s)" % zlit(int(e.value)), "T"          # an integer-valued float literal is float(z)
             if isinstance(e.value, bool) or not isinstance(e.value, int):
                 refuse(e, "constant %r outside the grammar" % (e.value,))
             if want != "Z" and e.value >= 0:
@@ -738,11 +750,19 @@ class SpeaTr(object):
             if isinstance(e.op, ast.Mult) and isinstance(e.left, ast.List) and len(e.left.elts) == 1:
                 c, tc = self.expr(e.left.elts[0], env)
                 n, tn = self.expr(e.right, env)
-                if tc != "nat" or tn != "nat":
-                    refuse(e, "[c] * n outside [nat constant] * nat")
-                return "(repeat %s %s)" % (c, n), "listnat"
-            a, ta = self.expr(e.left, env)
-            b, tb = self.expr(e.right, env)
+                if tc not in ("nat", "T") or tn != "nat" or not isinstance(e.left.elts[0], ast.Constant):
+                    refuse(e, "[c] * n outside [constant] * nat")
+                return "(repeat %s %s)" % (c, n), "listnat" if tc == "nat" else "listT"
+            wz = "Z" if isinstance(e.op, ast.Sub) else None        # a subtraction is an int (Z): int literals directly
+            a, ta = self.expr(e.left, env, wz if isinstance(e.left, ast.Constant) else None)
+            b, tb = self.expr(e.right, env, wz if isinstance(e.right, ast.Constant) else None)
+            if ta == "T" and tb == "T":
+                op = {ast.Add: "n_add", ast.Sub: "n_sub", ast.Mult: "n_mul", ast.Div: "n_div"}.get(type(e.op))
+                if op is None:
+                    refuse(e, "number operator %s outside the grammar" % type(e.op).__name__)
+                return "(%s Op %s %s)" % (op, a, b), "T"
+            if "T" in (ta, tb):
+                refuse(e, "arithmetic between %s and %s" % (ta, tb))
             if isinstance(e.op, (ast.Add, ast.Mult)) and ta == "nat" and tb == "nat":
                 return "(%s %s %s)%%nat" % (a, "+" if isinstance(e.op, ast.Add) else "*", b), "nat"
             op = {ast.Add: "+", ast.Sub: "-", ast.Mult: "*"}.get(type(e.op))
@@ -755,6 +775,10 @@ class SpeaTr(object):
             a, ta = self.expr(e.left, env)
             b, tb = self.expr(e.comparators[0], env)
             op = type(e.ops[0])
+            if op in (ast.In, ast.NotIn):
+                if ta != "nat" or tb != "listnat":
+                    refuse(e, "membership test outside <natural number> in <list of natural numbers>")
+                return ("(memb %s %s)" if op is ast.In else "(negb (memb %s %s))") % (a, b), "bool"
             if ta == "nat" and tb == "nat":
                 m = {ast.Lt: "(Nat.ltb %s %s)" % (a, b), ast.LtE: "(Nat.leb %s %s)" % (a, b),
                      ast.Gt: "(Nat.ltb %s %s)" % (b, a), ast.GtE: "(Nat.leb %s %s)" % (b, a),
@@ -805,8 +829,15 @@ class SpeaTr(object):
                 refuse(e, "subscript of a value of type %s" % ta)
             if isinstance(e.slice, ast.Slice):
                 sl = e.slice
+                if sl.lower is None and sl.step is None and sl.upper is not None:
+                    hi, th = self.expr(sl.upper, env)
+                    if th == "nat":
+                        return "(firstn %s %s)" % (hi, a), ta
+                    if th == "Z":
+                        return "(py_firstn %s %s)" % (hi, a), ta          # a negative bound counts from the end
+                    refuse(e, "slice bound is not an int")
                 if sl.upper is not None or sl.step is not None or sl.lower is None:
-                    refuse(e, "slice other than x[a:]")
+                    refuse(e, "slice other than x[a:] / x[:b]")
                 lo, tl = self.expr(sl.lower, env)
                 if tl != "nat":
                     refuse(e, "slice bound is not a natural number")
@@ -832,8 +863,19 @@ class SpeaTr(object):
                     refuse(e, "comprehension over non-numbers")
                 return res, "listnat"
             ew = ELT.get(want)
-            x, tx = self.expr(e.elt, env2, ew)
-            lt = {"nat": "listnat", "listnat": "llnat"}.get(tx)
+            if isinstance(e.elt, ast.Tuple) and len(e.elt.elts) == 2:
+                x0, t0 = self.expr(e.elt.elts[0], env2)
+                x1, t1 = self.expr(e.elt.elts[1], env2)
+                if t0 == "nat":
+                    x0, t0 = "(@PI T %s)" % x0, "pn"
+                elif t0 == "T":
+                    x0, t0 = "(@PF T %s)" % x0, "pn"
+                if (t0, t1) != ("pn", "nat"):
+                    refuse(e, "tuple element outside (number, natural number)")
+                x, tx = "(%s, %s)" % (x0, x1), "pnnat"
+            else:
+                x, tx = self.expr(e.elt, env2, ew)
+            lt = {"nat": "listnat", "listnat": "llnat", "pnnat": "lpnnat"}.get(tx)
             if lt is None:
                 refuse(e, "comprehension element of type %s" % tx)
             return "(map (fun x_ => %s%s) %s)" % (tgt_bind, x, res), lt
@@ -881,6 +923,13 @@ class SpeaTr(object):
                 refuse(it, "iteration over a non-list")
             names_free([target.id])
             return xs, "let %s := x_ in " % v(target.id), {target.id: ELT[tx]}
+        if isinstance(target, ast.Tuple) and len(target.elts) == 2 and all(isinstance(t, ast.Name) for t in target.elts):
+            xs, tx = self.expr(it, env)
+            if tx != "lpnnat":
+                refuse(it, "tuple loop target over something else than (number, index) pairs")
+            a, b = target.elts[0].id, target.elts[1].id
+            names_free([a, b])
+            return xs, "let '(%s, %s) := x_ in " % (v(a), v(b)), {a: "pn", b: "nat"}
         refuse(it, "iterable / loop target outside the grammar")
 
     # ---- statements ----------------------------------------------------------------------------------
@@ -908,6 +957,9 @@ class SpeaTr(object):
                 if not isinstance(t, ast.Name):
                     refuse(s, "append target outside the grammar")
                 add(t.id)
+            elif isinstance(s, ast.Expr) and isinstance(s.value, ast.Call) and isinstance(s.value.func, ast.Attribute) \
+                    and s.value.func.attr == "sort" and isinstance(s.value.func.value, ast.Name):
+                add(s.value.func.value.id)
             elif isinstance(s, ast.Expr) and isinstance(s.value, ast.Constant):
                 pass
             elif isinstance(s, ast.If):
@@ -945,7 +997,9 @@ class SpeaTr(object):
             return go()
         if isinstance(s, ast.Pass):
             return go()
-        if isinstance(s, ast.Assign) and len(s.targets) == 1 and isinstance(s.targets[0], ast.Name):
+        if isinstance(s, ast.Assign) and len(s.targets) == 1 and isinstance(s.targets[0], ast.Name) \
+                and not (isinstance(s.value, ast.Call) and isinstance(s.value.func, ast.Name)
+                         and s.value.func.id == "_randomizedSelect"):
             n = s.targets[0].id
             want = env.get(n) or SPEA["types"].get(n) or LOCAL_TYPES.get(n)
             x, t = self.expr(s.value, env, want)
@@ -955,16 +1009,62 @@ class SpeaTr(object):
                 pass
             env[n] = t
             return "let %s := %s in\n%s" % (v(n), x, go())
+        if isinstance(s, ast.Assign) and len(s.targets) == 1 and isinstance(s.targets[0], ast.Name) \
+                and isinstance(s.value, ast.Call) and isinstance(s.value.func, ast.Name) and s.value.func.id == "_randomizedSelect":
+            c = s.value
+            n = s.targets[0].id
+            if c.keywords or len(c.args) != 4 or not isinstance(c.args[0], ast.Name) or not env.get("$draws"):
+                refuse(s, "call of _randomizedSelect outside x = _randomizedSelect(<name>, a, b, i) in a unit that draws")
+            arr = c.args[0].id
+            if env.get(arr) != "listT" or (n in env and env[n] != "T"):
+                refuse(s, "_randomizedSelect on something else than a list of numbers")
+            args = []
+            for a in c.args[1:]:
+                x, t = self.expr(a, env, "Z")
+                args.append(self.coerceZ(x, t, a))
+            fuel = SIG["_randomizedSelect"]["call_fuel"].replace("ARG", v(arr))
+            text = "gen_randomizedSelect (%s) %s %s ds" % (fuel, v(arr), " ".join(args))
+            del env[arr]                       # the callee's final array is not returned: clobbered
+            env[n] = "T"
+            return "let '(%s, ds) := %s in\n%s" % (v(n), text, go())
+        if isinstance(s, ast.Assign) and len(s.targets) == 1 and isinstance(s.targets[0], ast.Subscript) \
+                and isinstance(s.targets[0].value, ast.Name) and not isinstance(s.targets[0].slice, ast.Slice):
+            t = s.targets[0]
+            a = t.value.id
+            i, ti = self.expr(t.slice, env)
+            x, tx = self.expr(s.value, env)
+            if env.get(a) != "listT" or ti != "nat" or tx != "T":
+                refuse(s, "subscript assignment outside <list of numbers>[natural number] = number")
+            return "let %s := set_nth %s %s %s in\n%s" % (v(a), v(a), i, x, go())
+        if isinstance(s, ast.Expr) and isinstance(s.value, ast.Call) and isinstance(s.value.func, ast.Attribute) \
+                and s.value.func.attr == "sort" and isinstance(s.value.func.value, ast.Name) and not s.value.args \
+                and not s.value.keywords:
+            a = s.value.func.value.id
+            if env.get(a) != "lpnnat":
+                refuse(s, "sort of something else than a list of (number, index) tuples")
+            return "let %s := sort_pn Op %s in\n%s" % (v(a), v(a), go())
         if isinstance(s, ast.AugAssign) and isinstance(s.op, ast.Add):
             t = s.target
+            if isinstance(t, ast.Name):
+                x, tx = self.expr(s.value, env)
+                if env.get(t.id) == "T" and tx == "T":
+                    return "let %s := n_add Op %s %s in\n%s" % (v(t.id), v(t.id), x, go())
+                if env.get(t.id) == "listnat" and tx == "listnat":
+                    return "let %s := %s ++ %s in\n%s" % (v(t.id), v(t.id), x, go())
+                refuse(s, "augmented assignment outside number += number / index list += index list")
             if isinstance(t, ast.Subscript) and isinstance(t.value, ast.Name) and not isinstance(t.slice, ast.Slice):
                 a = t.value.id
-                if env.get(a) != "listnat":
-                    refuse(s, "x[i] += e on something else than a list of natural numbers")
                 i, ti = self.expr(t.slice, env)
                 x, tx = self.expr(s.value, env)
-                if ti != "nat" or tx != "nat":
-                    refuse(s, "x[i] += e with a non-natural index / increment")
+                if ti != "nat":
+                    refuse(s, "x[i] += e with a non-natural index")
+                if env.get(a) == "listnat" and tx == "T":
+                    raise Widen(a, s)
+                if env.get(a) == "listpn" and tx in ("T", "nat"):
+                    return "let %s := set_nth %s %s (padd Op (nth %s %s %s) (%s %s)) in\n%s" % (
+                        v(a), v(a), i, i, v(a), DEFAULT["pn"], "@PF T" if tx == "T" else "@PI T", x, go())
+                if env.get(a) != "listnat" or tx != "nat":
+                    refuse(s, "x[i] += e outside lists of natural numbers / Python numbers")
                 return "let %s := set_nth %s %s (nth %s %s 0%%nat + %s)%%nat in\n%s" % (v(a), v(a), i, i, v(a), x, go())
             refuse(s, "augmented assignment outside the grammar")
         if isinstance(s, ast.Expr) and isinstance(s.value, ast.Call) and isinstance(s.value.func, ast.Attribute) \
@@ -988,13 +1088,29 @@ class SpeaTr(object):
             for n in names:
                 if n not in env and n in self.reads_after(s.body, rest):
                     refuse(s, "name %s is first bound inside a loop and used afterwards" % n)
+            if any(isinstance(n, ast.Name) and n.id == "_randomizedSelect" for n in ast.walk(s)):
+                state.append("$ds")                          # the draw list is threaded through the loop
             if not state:
                 refuse(s, "loop without effect on the variables bound before it")
-            env2 = dict(env)
-            env2.update(tenv)
-            body = self.block(s.body, env2, lambda e2: tup(state))
-            return "let %s := for_ %s (fun x_ st_ => %slet %s := st_ in\n%s) %s in\n%s" % (
-                letpat(state), it, bind, letpat(state), body, tup(state), go())
+            pre = ""
+            for _ in range(3):
+                env2 = dict(env)
+                env2.update(tenv)
+                self.for_depth += 1
+                try:
+                    body = self.block(s.body, env2, lambda e2: tup(state))
+                    break
+                except Widen as w:
+                    if self.for_depth > 1 or env.get(w.name) != "listnat":
+                        raise
+                    pre += "let %s := map (@PI T) %s in\n" % (v(w.name), v(w.name))
+                    env[w.name] = "listpn"
+                finally:
+                    self.for_depth -= 1
+            else:
+                refuse(s, "type widening did not settle")
+            return "%slet %s := for_ %s (fun x_ st_ => %slet %s := st_ in\n%s) %s in\n%s" % (
+                pre, letpat(state), it, bind, letpat(state), body, tup(state), go())
         if isinstance(s, ast.If):
             if top:
                 return self.unit_chain(s, rest, env, tail)
@@ -1063,6 +1179,8 @@ class SpeaTr(object):
             if why is None:
                 try:
                     uenv = {r: SPEA["types"][r] for r in u["reads"]}
+                    if u["draws"]:
+                        uenv["$draws"] = True
                     text = self.block(body, uenv, lambda e2: ("(%s, ds)" if u["draws"] else "%s") % tup(u["writes"]))
                 except Refuse as e:
                     why = e
